@@ -252,15 +252,48 @@ def write_file(path, tree):
     return text
 
 
-def load_library(path):
-    """GroupLibrary.Load -> ('ok', lib) | ('err', class)"""
+@contextlib.contextmanager
+def in_dir(d):
+    """run a block with the process's current directory set to d (None: leave it)"""
+    old = os.getcwd()
+    if d is not None:
+        os.chdir(d)
+    try:
+        yield
+    finally:
+        os.chdir(old)
+
+
+def load_library(path, cwd=None):
+    """GroupLibrary.Load -> ('ok', lib) | ('err', class); `cwd`: the current directory of the process during the load"""
     import pgradd.ThermoChem  # registers the property set
     from pgradd.GroupAdd.Library import GroupLibrary
     try:
-        with quiet():
+        with quiet(), in_dir(cwd):
             return 'ok', GroupLibrary.Load(path)
+    except RecursionError:
+        return 'err', 'recursion'
     except Exception as e:
         return 'err', err_class(e)
+
+
+def read_texts(d):
+    """{path relative to d: text} of every .yaml file below d except the scheme"""
+    out = {}
+    for root, _, fs in os.walk(d):
+        for f in fs:
+            if f.endswith('.yaml') and f != 'scheme.yaml':
+                p = os.path.join(root, f)
+                out[os.path.relpath(p, d)] = open(p).read()
+    return out
+
+
+def write_texts(d, texts):
+    for rel, text in texts.items():
+        p = os.path.join(d, rel)
+        os.makedirs(os.path.dirname(p), exist_ok=True)
+        with open(p, 'w') as f:
+            f.write(text)
 
 
 def obs_library(lib):
